@@ -403,7 +403,10 @@ func (x *c12Ctx) run(p c12Point) (violated bool, key, what, class string) {
 func c12Auths() []c12Auth {
 	var res []c12Auth
 	for _, cl := range []string{"A", "B"} {
-		for _, u := range []string{"alice", "bob"} {
+		// "Alice.Smith" and "carol@partner.example": names as a federated (OAuth2) login
+		// writes them into the session verbatim - not in the canonical form a password
+		// login produces; the tokens must name exactly the session's user
+		for _, u := range []string{"alice", "bob", "Alice.Smith", "carol@partner.example"} {
 			for _, ch := range []string{"none", "s256", "nomethod", "plain", "unknown", "empty"} {
 				for _, n := range []string{"none", "short", "ok"} {
 					for _, au := range []string{"none", "allowed", "foreign"} {
@@ -444,7 +447,7 @@ func init() {
 	vfRegister(&vfeng.Check{
 		ID:    "C12",
 		Level: "model_checking",
-		Rule:  "for three signer deployments (RSA; a P-256 key in the primary slot; RSA with an Ed25519 CA) - the full product on RSA, the canonical requests and a stride on the others - exhaustive product on the real authorization, token and userinfo handlers: authorization (client A with secret / B secret-less, user, challenge none/S256/no-method/plain/unknown/empty, nonce none/short/ok, audience none/allowed/foreign) x token request (presenter A/B/C/unknown/empty, secret right/wrong/absent/other client's/URL-escaped/whitespace-only/right+trailing blank/one character short/case-folded, verifier right/wrong/absent/challenge itself, redirect same/other-allowed/foreign/empty, code fresh/299s/300s/301s/bit-flipped/foreign key/session cookie/access token/ID token, credentials in header/form/both disagreeing, POST/GET); oracle: released => mayRelease(model); canonical flows must succeed; released ID token verified against the keys served by the JWKS route; userinfo returns the same user; an ID token, an authorization code or a session cookie presented to userinfo (header and form) yields no user data whatever the status",
+		Rule:  "for three signer deployments (RSA; a P-256 key in the primary slot; RSA with an Ed25519 CA) - the full product on RSA, the canonical requests and a stride on the others - exhaustive product on the real authorization, token and userinfo handlers: authorization (client A with secret / B secret-less, user incl. two names in the non-canonical form a federated login leaves in the session, challenge none/S256/no-method/plain/unknown/empty, nonce none/short/ok, audience none/allowed/foreign) x token request (presenter A/B/C/unknown/empty, secret right/wrong/absent/other client's/URL-escaped/whitespace-only/right+trailing blank/one character short/case-folded, verifier right/wrong/absent/challenge itself, redirect same/other-allowed/foreign/empty, code fresh/299s/300s/301s/bit-flipped/foreign key/session cookie/access token/ID token, credentials in header/form/both disagreeing, POST/GET); oracle: released => mayRelease(model); canonical flows must succeed; released ID token verified against the keys served by the JWKS route; userinfo returns the same user; an ID token, an authorization code or a session cookie presented to userinfo (header and form) yields no user data whatever the status",
 		Assumptions: []string{"a code presented exactly 300 s after issue is a boundary (not judged)", "a URL-escaped secret in the form (where no decoding is specified) is not judged"},
 		Shards: func(tier string) int { return 16 },
 		Run: func(c *vfeng.Ctx) {
@@ -463,7 +466,7 @@ func init() {
 						if refusedByDesign && ti > 0 {
 							break
 						}
-						if !c.Thorough() && (a.User == "bob" || a.Nonce == "none" || a.Audience == "allowed") && ti%37 != 0 {
+						if !c.Thorough() && (a.User != "alice" || a.Nonce == "none" || a.Audience == "allowed") && ti%37 != 0 {
 							continue // quick tier: full token product for the principal authorizations, a stride for the variants
 						}
 						if deploy != "" && !c.Thorough() && ti%11 != 0 && !(t.Code == "fresh" && t.Secret == "right" && t.Verifier == "absent") {
